@@ -156,3 +156,33 @@ register(Contract(
     modifies=ITML_MOD,
     prop=['C03', 'C11', 'C17']))
 C.unit('C03', 'itml:_BaseITML._fit')
+
+
+# ---------------------------------------------------------------------------------------------------- LSML
+def lsml_hyper(prior, seed='seed'):
+  return {'tol': Real(), 'max_iter': Int(1), 'prior': prior, 'verbose': Const(VBool(False)),
+          'random_state': Int() if seed == 'seed' else NoneT()}
+
+
+def lsml_fit_cases():
+  out = []
+  for pn, ps in PRIORS:
+    for wn, ws in (('noweights', NoneT()), ('weights-array', Arr(1, owner=frozenset({('param', 'weights')}), dims=['n'])),
+                   ('weights-list', AnyRef(types={'list'}))):
+      for h in ('fresh', 'refit'):
+        if wn == 'weights-list' and (pn != 'identity' or h == 'refit'):
+          continue
+        out.append(Case('%s-%s-%s' % (pn, wn, h), {'self': est('LSML', lsml_hyper(ps), h), 'quadruplets': Arr(3, dims=['n', 4, 'd']), 'weights': ws}))
+  return out
+
+
+register(Contract(
+    'lsml:_BaseLSML._fit',
+    cases=lsml_fit_cases(),
+    ensures=dict(model_clauses(lambda a: a.quadruplets.dim(2), lambda a: a.quadruplets.dim(2)),
+                 **{'w_-one-weight-per-constraint': lambda a, r: z3.And(a.self.w_.ndim == 1)}),
+    events={'randomness-seeded': seeded},
+    raises=dict(FIT_RAISES),
+    modifies={'components_', 'preprocessor_', 'n_features_in_', 'w_', 'n_iter_'},
+    prop=['C03', 'C12', 'C17']))
+C.unit('C03', 'lsml:_BaseLSML._fit')
